@@ -3,6 +3,7 @@
   Property theorems only; helper lemmas live in Lemmas/Offset.lean.
 -/
 import Lc3V.Lemmas.Offset
+import Lc3V.Model.Asm
 namespace Lc3V.C35
 open Lc3V
 
@@ -113,9 +114,61 @@ example : (newS 5 (BitVec.ofInt 16 (-5))).isOk = true ∧ (newS 5 15).isOk = tru
 example : (newU 5 15).isOk = true ∧ (newU 5 16).isOk = true ∧ (newU 5 32).isOk = false := by decide
 example : (truncS 5 16).toInt = -16 ∧ (truncU 5 32) = 0 := by decide
 
+/-! ### offsets computed from labels (`replace_pc_offset`) -/
+
+/-- the distance the assembler encodes for a label operand: from the incremented PC to the label, around the 16-bit
+    address space (x7FFF → x8000 is +1, xFFFF → x0000 is +1) -/
+def dist (addr pc : W) : Int := ((addr.toNat : Int) - pc.toNat).bmod 65536
+
+theorem sub_toInt_dist (addr pc : W) : (addr - pc).toInt = dist addr pc := by
+  unfold dist
+  rw [BitVec.toInt_sub]
+  have ha := addr.isLt; have hp := pc.isLt
+  rw [BitVec.toInt_eq_toNat_cond, BitVec.toInt_eq_toNat_cond]
+  simp [Int.bmod]; split <;> split <;> omega
+
+/-- **label operands**: a label that is defined in the file (not external) is accepted as an N-bit PC-relative operand exactly
+    when its distance from the incremented PC, taken around the address space, fits N bits two's complement — wherever the
+    instruction and the label lie (in particular on opposite sides of x7FFF/x8000) — and the encoded operand is that distance. -/
+theorem label_operand_iff (n : Nat) (h1 : 1 ≤ n) (h2 : n ≤ 16) (l : Label) (pc : W) (t : SymTab) (d : SymData)
+    (hl : lookupKey t.labels (upperS l.name) = some d) (he : d.ext = false) :
+    ((∃ v, replacePcOffset n (.label l) pc t = .ok v) ↔
+      (-(2 ^ (n - 1) : Int) ≤ dist d.addr pc ∧ dist d.addr pc < 2 ^ (n - 1))) ∧
+    (∀ v, replacePcOffset n (.label l) pc t = .ok v → v.toInt = dist d.addr pc) := by
+  have hiff := new_signed_iff n h1 h2 (d.addr - pc)
+  rw [sub_toInt_dist] at hiff
+  unfold replacePcOffset
+  simp only [hl, he, Bool.false_eq_true, if_false]
+  cases hn : newS n (d.addr - pc) with
+  | ok o =>
+    have hok : (newS n (d.addr - pc)).isOk = true := by rw [hn]; rfl
+    have hr := hiff.mp hok
+    refine ⟨⟨fun _ => hr, fun _ => ⟨_, rfl⟩⟩, ?_⟩
+    intro v hv
+    cases hv
+    rw [← sub_toInt_dist] at hr ⊢
+    rw [BitVec.toInt_setWidth]
+    revert hr
+    generalize (d.addr - pc) = x
+    intro hr
+    have := x.isLt
+    rw [BitVec.toInt_eq_toNat_cond] at hr ⊢
+    cases16 n <;> simp [Int.bmod] at hr ⊢ <;> omega
+  | err e =>
+    have hno : ¬ (newS n (d.addr - pc)).isOk = true := by rw [hn]; simp [Outcome.isOk]
+    refine ⟨⟨fun ⟨v, hv⟩ => (by cases hv), fun h => absurd (hiff.mpr h) hno⟩, fun v hv => (by cases hv)⟩
+  | panic p =>
+    have hno : ¬ (newS n (d.addr - pc)).isOk = true := by rw [hn]; simp [Outcome.isOk]
+    refine ⟨⟨fun ⟨v, hv⟩ => (by cases hv), fun h => absurd (hiff.mpr h) hno⟩, fun v hv => (by cases hv)⟩
+
+-- the boundary the 16-bit signed subtraction gets wrong: label at x8000, incremented PC x7FFF: distance +1
+example : dist 0x8000 0x7FFF = 1 := by decide
+example : dist 0x7FFF 0x8000 = -1 := by decide
+example : dist 0x0000 0xFFFF = 1 := by decide
+
 /-- Names of the theorems that constitute this property's proof obligations. -/
 def obligations : List Lean.Name :=
-  [``new_unsigned_iff, ``new_signed_iff, ``new_get_unsigned, ``new_get_signed,
+  [``sub_toInt_dist, ``label_operand_iff, ``new_unsigned_iff, ``new_signed_iff, ``new_get_unsigned, ``new_get_signed,
    ``new_err_kind_unsigned, ``new_err_kind_signed, ``trunc_unsigned, ``trunc_signed,
    ``new_panics_out_of_range]
 
